@@ -68,13 +68,13 @@ def default_chk(kind, fmt, bins=4, alpha=Fraction(3, 2), minw=Fraction(0), beta=
     if kind == 'vegas': return ['default', bins, fmt.rtok(alpha)]
     return ['default', fmt.rtok(minw), fmt.rtok(beta)]
 
-def rand_chk(rng, kind, fmt, dims, channels):
+def rand_chk(rng, kind, fmt, dims, channels, force_user=False):
     if kind == 'plain':
         return ['plain'], ['chk_plain']
     if kind == 'vegas':
         bins = rng.choice([2, 3, 4, 8])
         alpha = rng.choice([Fraction(0), Fraction(1, 2), Fraction(3, 2), Fraction(3)])
-        if rng.random() < 0.5:
+        if rng.random() < 0.5 and not force_user:
             return ['default', bins, fmt.rtok(alpha)], ['chk_default']
         xs = []
         for d in range(dims):
@@ -82,7 +82,7 @@ def rand_chk(rng, kind, fmt, dims, channels):
         return ['pdf', bins, dims, toks(fmt, xs), fmt.rtok(alpha)], ['chk_user_grid']
     minw = rng.choice([Fraction(0), Fraction(1, 100), Fraction(1, 4 * channels)])
     beta = rng.choice([Fraction(1, 4), Fraction(1, 2), Fraction(1)])
-    if rng.random() < 0.5:
+    if rng.random() < 0.5 and not force_user:
         return ['default', fmt.rtok(minw), fmt.rtok(beta)], ['chk_default']
     ws = rand_weights(rng, fmt, channels)
     cl = ['chk_user_weights'] + (['disabled_channel'] if any(w == 0 for w in ws) else [])
@@ -182,10 +182,10 @@ def rand_fills(rng, fmt, kind, dists, dims, ntab=24):
     return fills, tables
 
 def rand_run(rng, fmt, kind, *, calls=None, iters=None, value_classes=None, dists=None, special_map=False, trace=0, cb=None,
-             poly=None, finite_only=False, ops=None, wants=None, grid_map=None):
+             poly=None, finite_only=False, ops=None, wants=None, grid_map=None, user_state=False):
     dims = rng.choice([1, 2, 3]) if kind != 'mc' else rng.choice([1, 2])
     channels = rng.choice([1, 2, 3, 5]) if kind == 'mc' else 1
-    chk, cl = rand_chk(rng, kind, fmt, dims, channels)
+    chk, cl = rand_chk(rng, kind, fmt, dims, channels, force_user=user_state)
     classes = ['kind_' + kind, 'type_' + fmt.name] + cl
     poly = poly if poly is not None else (rng.random() < 0.4)
     if poly:
@@ -251,6 +251,15 @@ def gen_C16(c, rng, tier):
         total = rng.getrandbits(rng.choice([8, 20, 40])); world = rng.randint(1, rng.choice([4, 33, 1000])); rank = rng.randrange(world)
         sub = total // world + (1 if rank < total % world else 0)
         c.add('d', 'split', [total, sub, rank, world], classes=['sampled'])
+    # totals around the widths of narrower integer types (2^31, 2^32, 2^63): the three per-driver share expressions are
+    # evaluated on the translated definitions (the drivers themselves cannot be run with that many calls)
+    for _ in range(scale(tier, 200, 2000)):
+        base = rng.choice([2 ** 31, 2 ** 32, 2 ** 31 - 1, 2 ** 33, 2 ** 62, 2 ** 63, 2 ** 64 - 1 - 2 ** 20])
+        total = max(0, min(2 ** 64 - 1, base + rng.randint(-2 ** 10, 2 ** 10))); world = rng.randint(1, rng.choice([4, 33, 1000])); rank = rng.randrange(world)
+        nt = total % world != 0
+        c.add('d', 'subcalls', [total, rank, world], classes=['wide_totals'], nontrivial=nt)
+        sub = total // world + (1 if rank < total % world else 0)
+        c.add('d', 'split', [total, sub, rank, world], classes=['wide_totals_split'], nontrivial=nt)
 
 @prop('C09', 'weight vectors (zeros front/middle/end, normalised or not, length 1..12) x canonical numbers at 0, pred(1), every '
       'cumulative boundary and both neighbours, plus random; 3 types; non-trivial = vector has a zero weight or the number is a boundary',
@@ -705,6 +714,25 @@ def gen_C15(c, rng, tier):
                         ops = [['run', calls[:a]], ['reload'], ['run', calls[a:]], ['rollback', k], ['text'], ['dump'], ['run', calls[k:]], ['text']]
                         s = [e for e in s0 if e[0] != 'ops'] + [['ops', ops]]
                         c.add(t, 'run', s, classes=cl + ['reload_resume_rollback', 'rollback_%s' % ('0' if k == 0 else 'mid')], rollback_group=group, k=k, n=n, nontrivial=True, info=info)
+    gen_C15_user_state(c, rng, tier)
+
+def gen_C15_user_state(c, rng, tier):
+    """user-supplied grids / weights (unnormalised, with disabled channels): run, reload, resume, roll back to 0 and to the middle"""
+    for t in TYPES:
+        fmt = FMTS[t]
+        for kind in ['vegas', 'mc']:
+            for _ in range(scale(tier, 4, 30)):
+                n = rng.choice([2, 3, 4])
+                s0, cl, info = rand_run(rng, fmt, kind, iters=n, calls=[3, 6], finite_only=True, poly=True, grid_map=True, dists=[], user_state=True)
+                calls = info['calls']; a = rng.randint(1, n - 1)
+                group = len(c.cases)
+                for k in sorted(set([0, rng.randint(0, n)])):
+                    ops = [['run', calls[:a]], ['reload'], ['run', calls[a:]], ['rollback', k], ['text'], ['dump'], ['run', calls[k:]], ['text']]
+                    c.add(t, 'run', [e for e in s0 if e[0] != 'ops'] + [['ops', ops]], classes=cl + ['reload_resume_rollback', 'user_state'],
+                          rollback_group=group, k=k, n=n, nontrivial=True, info=info)
+                for k in range(n + 1):
+                    c.add(t, 'run', [e for e in s0 if e[0] != 'ops'] + [['ops', [['run', calls[:k]], ['text'], ['run', calls[k:]], ['text']]]],
+                          classes=['truncated_run'], truncated_of=group, k=k, info=info)
 
 @prop('C01', 'inverse CDF (point, bin, weight) on valid grids at lattice and extreme numbers; channel weight J / sum alpha_j d_j; whole runs of the three integrators '
       'driven by a complete midpoint lattice through the scripted engine (grids: uniform, user, adapted by real refinements; channel maps: piecewise-linear grids '
